@@ -24,6 +24,19 @@ def spec(level, extra_assume=None, run=default_run):
 
 
 TABLE = {
+    "C06": spec("model_checking", [
+        "phase boundaries t1..t3 are read from the derived Debug output of MotionProfile and cross-checked by "
+        "bisection on get_piece (public API)",
+        "grid values only for states and limits; query instants as listed in the rule"]),
+    "C07": spec("model_checking", [
+        "tolerances: 8 x (f32 epsilon x magnitudes involved (peak speed, |a|*T, positions, speed*T) + 2 ns x rate), "
+        "calibrated on the unchanged tree: worst observed error is below 8% of the 16x tolerance on 1.2e6 profiles",
+        "mirror pairs negate the end acceleration as well (the physical mirror image)",
+        "'comfortably feasible' = |dp| >= 1.05 (d_acc + d_dec) + 1e-3 (|p0|+|p1|) + 1e-6 with both speeds inside the limit"]),
+    "C20": spec("model_checking", [
+        "whether the inner settable is still updated after it rejected a set is not constrained",
+        "the stand-alone CommandPID of the PID-wrapper oracle is the real one (validated by C11), fed through a "
+        "ConstantGetter over a shared clock exactly like the wrapper's own wiring"]),
     "C08": spec("model_checking", [
         "step-local oracle: the states read at the device's terminals immediately before update() are taken as the "
         "measurements; projection computed in f64 with forward-error bound (exact where the arithmetic is dyadic)"]),
